@@ -7,7 +7,8 @@
    .prove(i), computed through the code-shaped fill_subtree / fill_digests_buf / merkle_tree_prove
    ([None] would be a panic or an unwritten MaybeUninit slot). *)
 From Coq Require Import List Arith Bool ZArith Permutation.
-From Verif Require Import Base.Field Model.Fp Model.Merkle Model.MerklePoseidonInst Proofs.Merkle.
+From Verif Require Import Base.Field Model.Fp Model.Merkle Model.MerklePoseidonInst Proofs.Merkle
+  Proofs.MerkleCompression Proofs.MerkleInst.
 Import ListNotations.
 Local Open Scope nat_scope.
 
@@ -136,6 +137,19 @@ Section C12.
     verify_merkle_proof_to_cap_res F digest hash_leaf two_to_one digest_eqb l i cap p = VPanic.
   Proof. exact (verify_out_of_range_panics F digest hash_leaf two_to_one digest_eqb). Qed.
 
+  (* ---- path compression: compressed multi-proofs of one tree decompress to the original
+     openings, for every non-empty list of positions (a multiset: duplicates, any order) ---- *)
+  Theorem C12_decompress_compress : forall (leaves : list (list F)) (k h : nat)
+      (indices : list nat) (proofs : list (list digest)),
+    length leaves = 2 ^ k -> h <= k ->
+    indices <> [] -> (forall i, In i indices -> i < 2 ^ k) ->
+    Forall2 (fun i p => prove leaves h i = Some p) indices proofs ->
+    exists cps,
+      compress_merkle_proofs digest h indices proofs = Some cps
+      /\ decompress_merkle_proofs F digest hash_leaf two_to_one
+           (map (fun i => nth i leaves []) indices) indices cps k h = Some proofs.
+  Proof. exact (decompress_compress_tree F digest hash_leaf two_to_one). Qed.
+
   (* ---- batch trees (BatchMerkleTree): layers of 2^k0 > 2^k1 > .. rows, cap height h ---- *)
   Variable digest_to_vec : digest -> list F.
 
@@ -175,6 +189,13 @@ Proof. exact hash_or_noop_pads. Qed.
 Definition toy_leaves : list (list Fp) :=
   map (fun j => map (fun c => toFp (Z.of_nat (7 * j + c))) (seq 0 5)) (seq 0 8).
 
+Fixpoint all_some {A} (l : list (option A)) : option (list A) :=
+  match l with
+  | [] => Some []
+  | Some a :: r => option_map (cons a) (all_some r)
+  | None :: _ => None
+  end.
+
 Definition digests_eqb (a b : list (list Fp)) : bool :=
   (length a =? length b) && forallb (fun p => digest_eqb (fst p) (snd p)) (combine a b).
 Example C12_example_tree :
@@ -202,6 +223,27 @@ Example C12_example_batch :
       && match verify_batch_merkle_proof_to_cap Fp (list Fp) toy_hash_or_noop toy_two_to_one digest_eqb
                  (fun d => d) false vals (bt_leaf_heights t) 6 (bt_cap t) proof with VOk => true | _ => false end
     | _, _ => false
+    end
+  | None => false
+  end = true.
+Proof. vm_compute. reflexivity. Qed.
+
+Example C12_example_compression :
+  let idx := [5; 1; 5; 4; 0] in
+  match all_some (map (merkle_prove Fp (list Fp) toy_hash_or_noop toy_two_to_one toy_leaves 1) idx) with
+  | Some proofs =>
+    match compress_merkle_proofs (list Fp) 1 idx proofs with
+    | Some cps =>
+      (* 10 siblings shrink to 2 *)
+      (fold_left (fun a p => a + length p) proofs 0 =? 10)
+      && (fold_left (fun a p => a + length p) cps 0 =? 2)
+      && match decompress_merkle_proofs Fp (list Fp) toy_hash_or_noop toy_two_to_one
+                 (map (fun i => nth i toy_leaves []) idx) idx cps 3 1 with
+         | Some back => forallb (fun pq => digests_eqb (fst pq) (snd pq)) (combine back proofs)
+                        && (length back =? length proofs)
+         | None => false
+         end
+    | None => false
     end
   | None => false
   end = true.
